@@ -97,6 +97,9 @@ def case_s(draw, only_cls: str | None = None) -> dict[str, Any]:
             reply = bytes([draw(st.integers(0, 255).filter(lambda x: x != 0x7F and x != sid + 0x40))]) + tail
         if reply[0] in (0x7F, sid + 0x40):
             reply = bytes([(reply[0] + 1) % 256 if (reply[0] + 1) % 256 not in (0x7F, sid + 0x40) else (reply[0] + 2) % 256]) + reply[1:]
+    elif rk == "sid-only" and kind == "raw" and sid in (0x27, 0x19, 0x31, 0x2C, 0x10, 0x11, 0x22, 0x2E, 0x2F):
+        # also for a request the codec keeps as raw bytes (unknown sub-function, missing parameters)
+        reply = bytes([sid + 0x40])
     elif rk in ("echo-changed", "broken-format", "subfn-bit7", "sid-only"):
         spec = refcodec.REQ[cls] if cls else None
         gen = spec.reply(kw, tail) if spec and spec.reply else None
